@@ -1,15 +1,12 @@
 ------------------------------- MODULE MCSdlTiny -------------------------------
 EXTENDS MCSdl
 
-\* ---- tiny: smoke / binding self-test / negative controls ----
+\* ---- tiny: smoke / negative controls / evidence numbers of a replay ----
 TinySlices == <<
-  Sl(<<"api", "web">>, <<"large", "small">>, <<"east", "west">>,
+  Sl("T", <<"api", "web">>, <<"large", "small">>, <<"east", "west">>,
      [s \in {"api", "web"} |-> IF s = "web" THEN NoneAll ELSE {{"command", "args", "env"}}],
      [s \in {"api", "web"} |-> IF s = "web" THEN {"two", "none"} ELSE {"local", "udp"}],
-     {2}, [c \in {"large", "small"} |-> IF c = "large" THEN "QLarge" ELSE "QSmall"]) >>
-
-
-TierQuants(tag) == BaseQuants(tag)
+     {2}, [c \in {"large", "small"} |-> IF c = "large" THEN <<List(<<QLarge>>)>> ELSE <<List(<<QSmall>>)>>]) >>
 
 ASSUME ExportDocs(Slices)
 =============================================================================
